@@ -20,6 +20,9 @@ earlier case keeps its identity and its replay id. They were written after the t
                              (constraints that print alike), and Pin pairs on the first and last trial
   A7 within_x_transition   - crossing of a within-trial derived factor over uncrossed sources with a transition
                              factor, unweighted (RandomGen's draw tree: completions of uncrossed sources x preamble)
+  A8 repeat_weighted_leftover - Repeat of a block crossing only a weighted within-trial derived factor over an
+                             evenly split uncrossed factor; leftover round of (about) the number of distinct
+                             combinations
   A6 nest_outer_transition - Nest whose outer block crosses a transition factor (sustained preamble), its source
                              crossed with it or not, explicit alignment, constraints on either block
 """
@@ -367,9 +370,35 @@ def within_x_transition(rng):
     return spec
 
 
-KINDS = {"A7": within_x_transition, "A6": nest_outer_transition, "A1": multicross_preambles, "A2": preamble_constraints, "A3": nest_outer, "A4": weighted_leftover,
+# A8 ---------------------------------------------------------------------------------------------------
+def repeat_weighted_leftover(rng):
+    """Repeat of a block whose only crossed factor is a weighted within-trial derived factor that splits an
+    uncrossed 4-level factor evenly; the leftover round is as long as the number of distinct combinations (or one
+    off). Nothing weighted outside the crossing, so every printed sequence is one solution."""
+    spec = _new()
+    spec["factors"]["B"] = {"kind": "basic", "levels": [["b%d" % j, 1] for j in range(4)]}
+    spec["order"].append("B")
+    f = gen.add_derived(rng, spec, "W", "within", deps=["B"], else_level=False)
+    f["levels"] = f["levels"][:2]
+    f["table"] = {S.akey(["b%d" % j]): (j // 2 if rng.random() < 0.6 else j % 2) for j in range(4)}
+    f["else"] = None
+    f["levels"][rng.randrange(2)][1] = rng.choice([2, 2, 3])
+    if rng.random() < 0.25:
+        _add_basic(rng, spec, "A", 0, nl=2)
+    size = sum(w for _, w in f["levels"])
+    left = 2 + rng.choice([0, 0, 0, 0, -1, 1])
+    mt = rng.choice([1, 1, 1, 2]) * size + left
+    design = list(spec["order"])
+    if rng.random() < 0.4:
+        rng.shuffle(design)
+    spec["block"] = {"op": "repeat", "block": _cross(design, [["W"]], [], rcc=True),
+                     "cons": [{"type": "MinimumTrials", "trials": mt}]}
+    return spec
+
+
+KINDS = {"A8": repeat_weighted_leftover, "A7": within_x_transition, "A6": nest_outer_transition, "A1": multicross_preambles, "A2": preamble_constraints, "A3": nest_outer, "A4": weighted_leftover,
          "A5": colliding_names}
-LABEL = {"A7": "A7-within-x-transition", "A6": "A6-nest-outer-transition", "A1": "A1-multicross-preambles", "A2": "A2-preamble-constraints", "A3": "A3-nest-outer",
+LABEL = {"A8": "A8-repeat-weighted-leftover", "A7": "A7-within-x-transition", "A6": "A6-nest-outer-transition", "A1": "A1-multicross-preambles", "A2": "A2-preamble-constraints", "A3": "A3-nest-outer",
          "A4": "A4-weighted-leftover", "A5": "A5-colliding-names"}
 
 
